@@ -214,9 +214,11 @@ func TestCheck(t *testing.T) {
 		}
 	}
 	recycles := 0
-	flushedNext := map[string]int{}      // base unit -> first case index whose result has not been received yet
-	fatal := map[string]map[int]bool{}   // base unit -> case indices that killed a worker
-	pool.IsPartial = func(line []byte) bool { return strings.Contains(string(line[:minInt(len(line), 4096)]), `"partial":true`) || strings.Contains(string(line), `"partial":true`) }
+	flushedNext := map[string]int{}    // base unit -> first case index whose result has not been received yet
+	fatal := map[string]map[int]bool{} // base unit -> case indices that killed a worker
+	pool.IsPartial = func(line []byte) bool {
+		return strings.Contains(string(line[:minInt(len(line), 4096)]), `"partial":true`) || strings.Contains(string(line), `"partial":true`)
+	}
 	var absorb func(unit string, line []byte) (next string)
 	pool.OnPartial = func(unit string, line []byte) { absorb(unit, line) }
 	pool.OnResultNext = func(unit string, line []byte) string { return absorb(unit, line) }
